@@ -253,8 +253,14 @@ func Enumerate(o Opts, f func(s *Session), visit func(l *Leaf) error) (leaves in
 	for {
 		s := &Session{Tape: &tape.Tape{TailKey: o.TailKey | 1}, Force: true}
 		s.Choices = append(append([]uint32{}, o.Prefix...), region...)
-		if o.Depth > 0 {
-			s.Cont = o.Cont
+		if o.Depth > 0 && o.Cont != nil {
+			end := len(o.Prefix) + o.Depth
+			s.Cont = func(k int, n uint32) uint32 {
+				if k < end {
+					return 0 // inside the enumerated region: first child
+				}
+				return o.Cont(k, n)
+			}
 		}
 		f(s)
 		if e := s.IndexLevelOK(); e != nil {
